@@ -30,7 +30,7 @@ def save(r):
 
 def confirm(d):
     name = os.path.basename(d.rstrip("/"))
-    patch = os.path.join(d, "patch.diff")
+    patch = os.path.abspath(os.path.join(d, "patch.diff"))
     if not os.path.isdir(SCRATCH):
         sh(f"git -C /repo worktree add -q --detach {SCRATCH} HEAD")
     sh("git checkout -q --detach $(git -C /repo rev-parse HEAD) && git checkout -- . && git clean -fdq", cwd=SCRATCH)
@@ -50,7 +50,7 @@ def confirm(d):
 
 def check(d, props):
     name = os.path.basename(d.rstrip("/"))
-    patch = os.path.join(d, "patch.diff")
+    patch = os.path.abspath(os.path.join(d, "patch.diff"))
     rc, out = sh("git -C /repo status --porcelain")
     if out.strip():
         print("refusing: /repo has local changes:", out)
